@@ -3,7 +3,12 @@ package main
 // One deterministic PRNG (splitmix64) for every random choice of a run.
 type Rng struct{ s uint64 }
 
-func NewRng(seed uint64) *Rng { return &Rng{s: seed*0x9E3779B97F4A7C15 + 0x1234567} }
+// NewRng hashes the seed first, so that nearby seeds give unrelated streams.
+func NewRng(seed uint64) *Rng {
+	r := &Rng{s: seed ^ 0x5DEECE66D1234567}
+	r.s = r.U64()*0xD6E8FEB86659FD93 + seed
+	return r
+}
 func (r *Rng) U64() uint64 {
 	r.s += 0x9E3779B97F4A7C15
 	z := r.s
